@@ -193,6 +193,14 @@ def rand_input(rng, fn, n=None):
                 if und:
                     S = np.triu(S, 1) + np.triu(S, 1).T
                 A = A * S
+            # an infinite weight (a connection that can never be cut, a missing-value marker): the
+            # randomisers only move weights around - it must come out as it went in
+            if not latt and rng.random() < 0.06:
+                ii, jj = np.nonzero(A)
+                t = rng.randrange(len(ii))
+                A[ii[t], jj[t]] = np.inf
+                if und:
+                    A[jj[t], ii[t]] = np.inf
             return A
     raise RuntimeError("no admissible input drawn for " + fn)
 
